@@ -483,6 +483,70 @@ func c20MakeSimple(r *run.Run) {
 		})
 }
 
+// c20ManyPlaceholders: fonts in which hundreds or thousands of glyphs get numbered placeholder names (the
+// numbers grow from three to four and five digits).
+func c20ManyPlaceholders(r *run.Run) {
+	counts := []int{2, 99, 100, 101, 998, 999, 1000, 1001, 1002, 1003, 9999, 10000, 10001, 10002}
+	r.Explore(explore.Config{Name: "C20.many-placeholders"},
+		"CID-keyed fonts with n glyphs, n in {2, 99..101, 998..1003, 9999..10002}, without any glyph text, converted with cff.Outlines.MakeSimple, and the same fonts asked with Font.MakeGlyphNames (no character map): one non-empty valid name per glyph, pairwise distinct, .notdef first, the same names when asked again",
+		func(c *explore.Ctx) {
+			n := counts[c.Choose(len(counts), "glyphs")]
+			viaFont := c.Bool("Font.MakeGlyphNames")
+			f2, _ := FontFromChoices(gen.FontOpts{NoMeta: true, NoLayout: true}, 2, 1, 0, 0, 0)
+			base := f2.Outlines.(*cff.Outlines)
+			ol := &cff.Outlines{Private: base.Private, FDSelect: func(glyph.ID) int { return 0 }, ROS: base.ROS, FontMatrices: base.FontMatrices[:1]}
+			for i := 0; i < n; i++ {
+				ol.Glyphs = append(ol.Glyphs, gen.CFFShape(1+i%3, "", 500))
+				ol.GIDToCID = append(ol.GIDToCID, cid.CID(i))
+			}
+			desc := fmt.Sprintf("%d glyphs, via Font.MakeGlyphNames %v", n, viaFont)
+			c.Sample(func() any { return desc })
+			c.Outcome(desc)
+			c.Nontrivial()
+			var got, again []string
+			if p := guard(func() {
+				if viaFont {
+					f2.Outlines = ol
+					f2.CMapTable = nil
+					got = f2.MakeGlyphNames()
+					again = f2.MakeGlyphNames()
+				} else {
+					ol.MakeSimple(nil)
+					for _, g := range ol.Glyphs {
+						got = append(got, g.Name)
+					}
+					ol.MakeSimple(nil)
+					for _, g := range ol.Glyphs {
+						again = append(again, g.Name)
+					}
+				}
+			}); p != "" {
+				c.Fail("C20.panic", "many placeholders: "+explore.PanicSignature(p), "panic: %s; %s", p, desc)
+				return
+			}
+			if len(got) != n || got[0] != ".notdef" {
+				c.Fail("C20.complete", "many placeholders", "%d names for %d glyphs, glyph 0 is called %q; %s", len(got), n, got[0], desc)
+				return
+			}
+			seen := map[string]int{}
+			for i, nm := range got {
+				if nm == "" || !names.IsValid(nm) {
+					c.Fail("C20.valid", "many placeholders", "glyph %d is called %q; %s", i, nm, desc)
+					return
+				}
+				if j, dup := seen[nm]; dup {
+					c.Fail("C20.unique", "many placeholders", "glyphs %d and %d are both called %q; %s", j, i, nm, desc)
+					return
+				}
+				seen[nm] = i
+				if again[i] != nm {
+					c.Fail("C20.repeatable", "many placeholders", "glyph %d is called %q, then %q; %s", i, nm, again[i], desc)
+					return
+				}
+			}
+		})
+}
+
 func c20PostScript(r *run.Run) {
 	forbidden := " \t\n()<>[]{}/%"
 	r.Explore(explore.Config{Name: "C20.postscript-name"},
@@ -546,6 +610,7 @@ func init() {
 		r.Rule = "bounded exhaustive enumeration of name patterns, name-storage kinds, cmap subsets and GSUB variants on 5-glyph fonts; all runes / forbidden-character pairs for the PostScript name"
 		r.Assume = []string{"cmap targets and GSUB glyphs refer to existing glyphs", "stability: 20 repeated calls inside C20.names, and every map iteration order of the seam's alphabet in C20.map-order"}
 		c20MakeSimple(r)
+		c20ManyPlaceholders(r)
 		c20PostScript(r)
 		c20MapOrder(r)
 		c20Names(r)
